@@ -794,8 +794,27 @@ fn history_strategy(scale: u32) -> impl Strategy<Value = Case> {
       prop_oneof![Just(Addr::FullId), Just(Addr::HashFragment), Just(Addr::Fragment)],
       prop::collection::vec(prop_oneof![4 => prop::sample::select(pool), 1 => anchor()], 0..=10),
       prop::option::weighted(0.3, (anchor(), prop_oneof![3 => 1u32..=200, 1 => 1u32..=5_000])),
+      // a sorted walk from an anchor with steps 0 (the index again), 1 and 2 (one index skipped): batches with repeats
+      // and small gaps, as a caller collecting indices from several sources passes them
+      prop::option::weighted(0.35, (anchor(), prop::collection::vec(0u32..3, 2..8))),
     )
-      .prop_map(|(revoke, addr, indices, run)| Batch { revoke, addr, indices, run })
+      .prop_map(|(revoke, addr, mut indices, run, walk)| {
+        if let Some((start, steps)) = walk {
+          let mut at = start;
+          let mut sorted = vec![at];
+          for step in steps {
+            at = at.saturating_add(step);
+            sorted.push(at);
+          }
+          // the walk replaces the drawn indices (kept sorted), or follows them
+          if start % 2 == 0 {
+            indices = sorted;
+          } else {
+            indices.extend(sorted);
+          }
+        }
+        Batch { revoke, addr, indices, run }
+      })
   };
   (doc_kind(), prop::collection::vec(piece(scale), 0..=3), prop::collection::vec(anchor(), 4..=10))
     .prop_flat_map(move |(doc, initial, pool)| {
